@@ -114,6 +114,11 @@ fn main() {
         std::process::exit(r1);
     }
     let id = args[1].clone();
+    if id == "C15-bmi2-worker" {
+        let tier = if args.get(2).map(|s| s.as_str()) == Some("thorough") { Tier::Thorough } else { Tier::Quick };
+        guard::install("C15", &verif_dir);
+        std::process::exit(props::c15::worker(tier));
+    }
     let tier = match args.get(2).map(|s| s.as_str()) {
         Some("quick") => Tier::Quick,
         Some("thorough") => Tier::Thorough,
@@ -142,6 +147,11 @@ fn dispatch(id: &str, tier: Tier) -> i32 {
         "C06" => props::c06::run(tier),
         "C08" => props::c08::run(tier),
         "C09" => props::c09::run(tier),
+        "C13" => props::c13::run(tier),
+        "C15" => props::c15::run(tier),
+        "C16" => props::c16::run(tier),
+        "C19" => props::c19::run(tier),
+        "C20" => props::c20::run(tier),
         "C17" => props::c17::run(tier),
         "C18" => props::c18::run(tier),
         _ => {
@@ -160,6 +170,11 @@ fn dispatch_replay(id: &str, case: &Value) -> i32 {
         "C06" => props::c06::replay(case),
         "C08" => props::c08::replay(case),
         "C09" => props::c09::replay(case),
+        "C13" => props::c13::replay(case),
+        "C15" => props::c15::replay(case),
+        "C16" => props::c16::replay(case),
+        "C19" => props::c19::replay(case),
+        "C20" => props::c20::replay(case),
         "C17" => props::c17::replay(case),
         "C18" => props::c18::replay(case),
         _ => {
